@@ -408,6 +408,10 @@ class Pool():
                     if not flag:
                         if worker.id not in self._closed: # if a worker died while enqueueing, its death has already been handled but we will (possibly) end up here
                             handle_death(worker)
+                    elif worker.id in self._closed:
+                        # the worker died while we were enqueueing to it and its pending inputs have already
+                        # been given up (moved to retries if enabled) - a result which was still in flight is dropped
+                        logger.debug('Ignoring a late result from the dead worker {}', worker)
                     else:
                         handle_new_result(worker, result)
 
